@@ -82,6 +82,7 @@ func runC02(c *Ctx) {
 	c02GroupCount(c)
 	c02PortSplit(c)
 	c02IPDispatch(c)
+	c02V4Label(c)
 }
 
 func safeSkeleton(b *skel.Builder, f *ssa.Function) (s string) {
@@ -570,17 +571,25 @@ func c02PortSplit(c *Ctx) {
 // value becomes n*10+digit and anything above 65535 rejects at once (so the
 // accumulator cannot overflow, however long the text is).
 func c02Uint16(c *Ctx, f *ssa.Function) {
-	what := "digit loop: reject non-digits, n' = 10n + d, reject as soon as n' > 65535 (strconv.ParseUint(s, 10, 16))"
+	c02DigitLoop(c, f, "C02.port.number", "digit loop: reject non-digits, n' = 10n + d, reject as soon as n' > 65535 (strconv.ParseUint(s, 10, 16))", 65535, true,
+		[]int64{0, 1, 9, 10, 99, 655, 6552, 6553, 6554, 6555, 9999, 65535})
+}
+
+// c02DigitLoop evaluates one iteration of a `for _, r := range <param>` digit
+// accumulation at threshold values.  inLoop: the bound is enforced inside the
+// loop (reject as soon as n' > bound) and the exhausted-text exit accepts;
+// otherwise the loop only accumulates and the exit returns n <= bound.
+func c02DigitLoop(c *Ctx, f *ssa.Function, rule, what string, bound int64, inLoop bool, ns []int64) {
 	var head *ssa.BasicBlock
 	for h := range core.LoopHeads(f) {
 		if head != nil {
-			c.undecided("C02.port.number", f, what, nil, "more than one loop")
+			c.undecided(rule, f, what, nil, "more than one loop")
 			return
 		}
 		head = h
 	}
 	if head == nil {
-		c.undecided("C02.port.number", f, what, nil, "no loop")
+		c.undecided(rule, f, what, nil, "no loop")
 		return
 	}
 	var acc *ssa.Phi
@@ -589,7 +598,7 @@ func c02Uint16(c *Ctx, f *ssa.Function) {
 		switch x := in.(type) {
 		case *ssa.Phi:
 			if acc != nil {
-				c.undecided("C02.port.number", f, what, nil, "more than one loop-carried value")
+				c.undecided(rule, f, what, nil, "more than one loop-carried value")
 				return
 			}
 			acc = x
@@ -599,11 +608,11 @@ func c02Uint16(c *Ctx, f *ssa.Function) {
 	}
 	hif, _ := head.Instrs[len(head.Instrs)-1].(*ssa.If)
 	if acc == nil || next == nil || !next.IsString || hif == nil {
-		c.undecided("C02.port.number", f, what, nil, "not a `for _, r := range s` loop with one accumulator")
+		c.undecided(rule, f, what, nil, "not a `for _, r := range s` loop with one accumulator")
 		return
 	}
 	if rg, ok := next.Iter.(*ssa.Range); !ok || rg.X != ssa.Value(f.Params[0]) {
-		c.undecided("C02.port.number", f, what, nil, "the loop does not range over the parameter")
+		c.check(false, rule, f, what, next, "the loop does not range over the whole parameter: the bytes outside the ranged window are not checked to be digits")
 		return
 	}
 	var rn ssa.Value
@@ -618,18 +627,34 @@ func c02Uint16(c *Ctx, f *ssa.Function) {
 			start, _ = core.ConstInt(e)
 		}
 	}
-	// the exit taken when the text is exhausted accepts
+	// the exit taken when the text is exhausted
 	done := head.Succs[1]
 	okDone := false
-	if ret, ok := done.Instrs[len(done.Instrs)-1].(*ssa.Return); ok && len(done.Instrs) == 1 {
-		b, isK := core.ConstBool(ret.Results[0])
-		okDone = isK && b
+	exitWhy := ""
+	if ret, ok := done.Instrs[len(done.Instrs)-1].(*ssa.Return); ok {
+		if inLoop {
+			b, isK := core.ConstBool(ret.Results[0])
+			okDone = isK && b && len(done.Instrs) == 1
+			exitWhy = "the exhausted-text exit must be a plain `return true`"
+		} else {
+			okDone = true
+			for _, v := range []int64{0, 1, bound - 1, bound, bound + 1, bound + 2, 999} {
+				got, ok := evalSmall(ret.Results[0], map[ssa.Value]int64{acc: v}, 0)
+				want := int64(0)
+				if v <= bound {
+					want = 1
+				}
+				if !ok || got != want {
+					okDone = false
+					exitWhy = sprintf("the exhausted-text exit must return n <= %d; for n = %d it returns %d", bound, v, got)
+				}
+			}
+		}
 	}
 	if rn == nil || start != 0 || !okDone {
-		c.check(false, "C02.port.number", f, what, nil, sprintf("accumulator starts at %d (want 0); the exhausted-text exit must be a plain `return true`", start))
+		c.check(false, rule, f, what, nil, sprintf("accumulator starts at %d (want 0); %s", start, exitWhy))
 		return
 	}
-	ns := []int64{0, 1, 9, 10, 99, 655, 6552, 6553, 6554, 6555, 9999, 65535}
 	rs := []int64{0, 47, 48, 49, 52, 53, 54, 55, 56, 57, 58, 65, 0x660, 0xFFFD, 0x10FFFF}
 	bad, undec := "", ""
 	cases := 0
@@ -684,7 +709,7 @@ func c02Uint16(c *Ctx, f *ssa.Function) {
 			cases++
 			want, wantN := "reject", int64(0)
 			if r >= '0' && r <= '9' {
-				if v := n0*10 + (r - '0'); v <= 65535 {
+				if v := n0*10 + (r - '0'); v <= bound || !inLoop {
 					want, wantN = "continue", v
 				}
 			}
@@ -694,10 +719,139 @@ func c02Uint16(c *Ctx, f *ssa.Function) {
 		}
 	}
 	if undec != "" {
-		c.undecided("C02.port.number", f, what, nil, undec)
+		c.undecided(rule, f, what, nil, undec)
 		return
 	}
-	c.check(bad == "", "C02.port.number", f, what, nil, sprintf("%d (n, rune) threshold cases evaluated exactly. %s", cases, bad))
+	c.check(bad == "", rule, f, what, nil, sprintf("%d (n, rune) threshold cases evaluated exactly. %s", cases, bad))
+}
+
+// c02V4Label: isIPv4Label accepts exactly the decimal numbers 0..255 without
+// leading zeros.  The dispatch in front of the digit loop is evaluated for
+// every (length class, first byte class); the loop itself by c02DigitLoop.
+func c02V4Label(c *Ctx) {
+	c.L.Floor("C02.v4.label", 2)
+	f := c.fn("netutil", "isIPv4Label")
+	if f == nil {
+		return
+	}
+	what := "dispatch: length 1..3, a single byte must be a digit, no leading zero, otherwise every byte goes through the digit loop"
+	p := ssa.Value(f.Params[0])
+	var lens, firsts []ssa.Value
+	core.EachInstr(f, func(in ssa.Instruction) {
+		if call, ok := in.(*ssa.Call); ok && core.CalleeName(&call.Call) == "builtin.len" && call.Call.Args[0] == p {
+			lens = append(lens, call)
+		}
+		if v, x, i, ok := strIndex(in); ok && x == p {
+			if k, isK := core.ConstInt(i); isK && k == 0 {
+				firsts = append(firsts, v)
+			}
+		}
+	})
+	var head *ssa.BasicBlock
+	for h := range core.LoopHeads(f) {
+		head = h
+	}
+	bad, undec := "", ""
+	n := 0
+	for _, l := range []int64{0, 1, 2, 3, 4, 5} {
+		for _, b0 := range []int64{0, '/', '0', '1', '5', '9', ':', 'A', 'a', 0x80, 0xff} {
+			env := map[ssa.Value]int64{}
+			for _, v := range lens {
+				env[v] = l
+			}
+			for _, v := range firsts {
+				env[v] = b0
+			}
+			b := f.Blocks[0]
+			var prev *ssa.BasicBlock
+			outcome := ""
+			for steps := 0; steps < 32 && outcome == "" && undec == ""; steps++ {
+				if b == head || (head != nil && head.Dominates(b) && b != f.Blocks[0]) {
+					outcome = "loop"
+					break
+				}
+				switch t := b.Instrs[len(b.Instrs)-1].(type) {
+				case *ssa.Return:
+					res := t.Results[0]
+					if phi, isPhi := res.(*ssa.Phi); isPhi && phi.Block() == b {
+						for i, pr := range b.Preds {
+							if pr == prev {
+								res = phi.Edges[i]
+							}
+						}
+					}
+					v, ok := evalSmall(res, env, 0)
+					if !ok {
+						undec = "a result outside (len(label), label[0]) arithmetic: " + core.Describe(t.Results[0])
+					} else if v != 0 {
+						outcome = "accept"
+					} else {
+						outcome = "reject"
+					}
+				case *ssa.Jump:
+					prev, b = b, b.Succs[0]
+				case *ssa.If:
+					if l == 0 && refsAny(t.Cond, firsts) {
+						// label[0] of an empty label: must not be evaluated (C01)
+						outcome = "reads label[0] of an empty label"
+						break
+					}
+					v, ok := evalSmall(t.Cond, env, 0)
+					if !ok {
+						undec = "a branch outside (len(label), label[0]) arithmetic: " + core.Describe(t.Cond)
+					} else if v != 0 {
+						prev, b = b, b.Succs[0]
+					} else {
+						prev, b = b, b.Succs[1]
+					}
+				default:
+					undec = "unexpected block end"
+				}
+			}
+			if undec != "" {
+				break
+			}
+			n++
+			digit := b0 >= '0' && b0 <= '9'
+			want := "reject"
+			switch {
+			case l < 1 || l > 3:
+			case l == 1:
+				if digit {
+					want = "accept"
+				}
+			case b0 == '0':
+			default:
+				want = "loop"
+			}
+			// a non-digit first byte of a 2..3 byte label may be rejected early or by the loop
+			if outcome != want && !(want == "loop" && outcome == "reject" && !digit) && bad == "" {
+				bad = sprintf("for len %d and first byte %d the dispatch does %q, the reference %q", l, b0, outcome, want)
+			}
+		}
+	}
+	if undec != "" {
+		c.undecided("C02.v4.label", f, what, nil, undec)
+	} else {
+		c.check(bad == "", "C02.v4.label", f, what, nil, sprintf("%d (length, first byte) classes evaluated. %s", n, bad))
+	}
+	c02DigitLoop(c, f, "C02.v4.label", "digit loop over the whole label: reject non-digits, n' = 10n + d; accept iff n <= 255", 255, false, []int64{0, 1, 2, 9, 10, 25, 26, 99})
+}
+
+// refsAny: v is, or is computed from, one of vs (through unary/binary operators).
+func refsAny(v ssa.Value, vs []ssa.Value) bool {
+	if isOneOf(v, vs) {
+		return true
+	}
+	switch x := v.(type) {
+	case *ssa.BinOp:
+		return refsAny(x.X, vs) || refsAny(x.Y, vs)
+	case *ssa.UnOp:
+		return refsAny(x.X, vs)
+	case *ssa.Convert:
+		return refsAny(x.X, vs)
+	}
+	return false
 }
 
 // c02IPDispatch mirrors netip.ParseAddr's dispatcher: the first '.' or ':'
